@@ -28,6 +28,7 @@ inductive Cmd where
   | resume (ack : Nat)
   | stop (graceful : Bool) (completion : Option Nat)
   | workerFaulted (idx : Nat)
+  | workerFaultedFail (idx : Nat)   -- a `WorkerFaulted(idx)` whose `ServerWorker::start` fails (the factory cannot make the services)
 deriving DecidableEq, Repr
 
 inductive Ev where
@@ -38,6 +39,7 @@ inductive Ev where
   | awaitWorker (w : Nat)             -- `join_all`: worker `w`'s reply receiver resolved
   | joinAccept                        -- the accept thread was joined (it has exited)
   | restartWorker (idx : Nat)
+  | restartFailed (idx : Nat)         -- `error!("can not restart worker ..")`: logged, nothing else
   | returned                          -- `ServerInner::run` returned `Ok(())`: the `Server` future resolves
 deriving DecidableEq, Repr
 
@@ -74,6 +76,9 @@ def handle (s : St) : Cmd → St
   | .stop g comp => { (emit s (stopEvs s.wakeFirst s.workers g comp)) with stopping := true }
   | .workerFaulted idx =>
     if idx ∈ s.workers then emit s [.restartWorker idx, .wake (.worker idx)] else { s with panicked := true }
+  | .workerFaultedFail idx =>
+    -- a restart that fails is logged and leaves the server as it is: the loop goes on, later faults are still handled
+    if idx ∈ s.workers then emit s [.restartFailed idx] else { s with panicked := true }
 
 /-- the ack channel inside a command -/
 def Cmd.ack? : Cmd → Option Nat
@@ -81,6 +86,7 @@ def Cmd.ack? : Cmd → Option Nat
   | .resume a => some a
   | .stop _ c => c
   | .workerFaulted _ => none
+  | .workerFaultedFail _ => none
 
 /-- dropping the command channel with `cs` still in it -/
 def droppedAcks (cs : List Cmd) : List Ev := cs.filterMap fun c => c.ack?.map .ackDropped
@@ -104,6 +110,7 @@ inductive Call where
   | stop (graceful : Bool)
   | signal (sig : Src.Signal)
   | faulted (idx : Nat)
+  | faultedFail (idx : Nat)   -- a fault report whose restart will fail
 deriving DecidableEq, Repr
 
 structure Sys where
@@ -118,6 +125,7 @@ def call (y : Sys) : Call → Sys × Option Nat
   | .stop g => ({ cmds := y.cmds ++ [.stop g (some y.nextAck)], nextAck := y.nextAck + 1 }, some y.nextAck)
   | .signal sig => ({ y with cmds := y.cmds ++ [cmdOfSignal sig] }, none)
   | .faulted idx => ({ y with cmds := y.cmds ++ [.workerFaulted idx] }, none)
+  | .faultedFail idx => ({ y with cmds := y.cmds ++ [.workerFaultedFail idx] }, none)
 
 def calls (y : Sys) : List Call → Sys
   | [] => y
